@@ -25,7 +25,7 @@ RULE = ("one value per case, generated as an IR over exactly the types of the st
         "(bytearray frozenset Fraction range slice deque OrderedDict Counter defaultdict ChainMap); "
         "distinct by the rendered IR.")
 FLOOR = {"quick": 3000, "thorough": 3000}
-BUDGET = {"quick": 30, "thorough": 480}
+BUDGET = {"quick": 20, "thorough": 480}
 CASE_TIMEOUT = 20
 NEEDS_EVENTS = True
 ANCHORS = ["hy.core.hy_repr:hy_repr", "hy.core.hy_repr:_base_repr", "hy.core.hy_repr:_cat"]
